@@ -11,6 +11,7 @@ import (
 	"strings"
 	"testing"
 
+	"fortio.org/log"
 	"grol.io/grol/eval"
 	"grol.io/grol/extensions"
 	"grol.io/grol/repl"
@@ -21,6 +22,7 @@ import (
 
 func TestMain(m *testing.M) {
 	_ = extensions.Init(nil)
+	log.SetLogLevelQuiet(log.Critical) // refused definitions are logged (parser errors, constant changes)
 	pbt.Main(m, pbt.Meta{
 		Property: "C20",
 		Level:    "exploration",
@@ -29,11 +31,17 @@ func TestMain(m *testing.M) {
 			"Enumerated completely: all subsets of size<=4 of the 14 words of length 1..3 over {a,b} in every order, " +
 			"all 2^14 subsets in 3 canonical orders, all subsets of size<=4 of the 12 words of length<=2 over {a,0x00,0xff} " +
 			"in every order, each also with duplicates and the empty word; plus rapid-generated sequences of up to 60 words over " +
-			"arbitrary bytes and identifier-definition sessions (State.RegisterTrie). A sequence is non-trivial when a word is " +
+			"arbitrary bytes and identifier-definition sessions (State.RegisterTrie). Histories with REFUSED definitions (index set up as " +
+			"repl.Interactive does; inputs that assign to a library function name, bind a constant again to something else, name a builtin, " +
+			"fail on their right-hand side, increment or index what cannot be, or do so one call down, mixed with successful definitions of " +
+			"the same and of prefix-related names; generated, plus every library function name and PI/E enumerated with every form of definition): " +
+			"an input that ends with an error leaves the word list, PrefixAll / common prefix / completed line for every typed prefix of the name " +
+			"exactly as they were; a successful one adds at most name and name( or name+space, adds them when it creates the name, removes nothing. A sequence is non-trivial when a word is " +
 			"inserted after a longer word it is a prefix of, or a longer word after its own prefix; distinct by the sequence.",
 		Assumptions: []string{
 			"the common-prefix length is not asserted when no word matches (the property defines it 'of those words')",
 			"the completion callback itself is unexported and needs a terminal; its pure core commands[0][:l] is re-computed from PrefixAll's result",
+			"history family: whether an input is a refused definition is decided by its outcome (an error), not predicted; an update of an existing name (plain =, ++, index assignment, assignment one call down) may but need not record the form of the new value",
 			"session family: the interpreter records a name when it is created (first definition, or := which always creates) as name, and name( for a function or name+space otherwise; a later plain = update is not expected to record anything",
 		},
 		Exhaustive:      true,
@@ -396,6 +404,14 @@ func TestSessionIdentifiers(t *testing.T) {
 // ---- replay / regress ---------------------------------------------------------------------
 
 func oracle(kind string, raw json.RawMessage) error {
+	if strings.HasPrefix(kind, "history") {
+		var c HistCase
+		if err := json.Unmarshal(raw, &c); err != nil {
+			return err
+		}
+		_, err := checkHistory(c)
+		return err
+	}
 	if kind == "session" {
 		var c SessCase
 		if err := json.Unmarshal(raw, &c); err != nil {
